@@ -1,20 +1,226 @@
 (* C19 - String and regex functions agree with their reference model.
-   Property theorems only; every proof is `exact <lemma>`.  The model is
-   Model/Strings.v (+ Model/Regex.v), tied to yaql/standard_library/strings.py and
-   regex.py by the value correspondence of harness/props/c19.py. *)
-From Coq Require Import List ZArith Bool.
-From YV Require Import Common.Corr Model.Strings Lemmas.StringsSlice.
+   Property theorems only; every proof is `exact <lemma>`.  The models are
+   Model/Strings.v and Model/Regex.v, tied to yaql/standard_library/strings.py and
+   regex.py by the value correspondence of harness/props/c19.py.
+   Strings are lists of code points; all theorems hold for ALL strings and integers. *)
+From Coq Require Import List ZArith Bool Sorted.
+From YV Require Import Common.Corr Model.Strings Model.Regex.
+From YV Require Import Lemmas.StringsSlice Lemmas.StringsFind Lemmas.StringsSplit Lemmas.StringsTrim Lemmas.RegexPublish.
 Import ListNotations.
 Open Scope Z_scope.
 
+(* ---- substring -------------------------------------------------------------------- *)
 (* substring(start, length): for -len <= start the result is L characters from position S,
    S = start (+ len if negative), L = length (all of the rest if negative) *)
 Theorem C19_substring : forall s start length, - zlen s <= start ->
   substring s start length = firstn (sub_len s length) (skipn (sub_start s start) s).
 Proof. exact substring_spec. Qed.
 
+Theorem C19_substring_rest : forall s start length, - zlen s <= start -> length < 0 ->
+  substring s start length = skipn (sub_start s start) s.
+Proof. exact substring_rest. Qed.
+
+(* ---- indexOf / lastIndexOf ------------------------------------------------------------ *)
+(* [occurs_at s sub i]: s = pre ++ sub ++ post with |pre| = i.
+   [first_in_window s sub lo hi r]: r = -1 and sub occurs nowhere in [lo, hi], or r is the
+   least position in [lo, hi] where it occurs; [last_in_window]: the greatest. *)
+Theorem C19_index_of : forall s sub start,
+  first_in_window s sub (io_lo s start) (zlen s - zlen sub) (index_of s sub start).
+Proof. exact index_of_spec. Qed.
+
+Theorem C19_last_index_of : forall s sub start,
+  last_in_window s sub (io_lo s start) (zlen s - zlen sub) (last_index_of s sub start).
+Proof. exact last_index_of_spec. Qed.
+
+(* the overloads without start: soundness, leastness (greatestness), completeness *)
+Theorem C19_index_of_default : forall s sub,
+  let r := index_of s sub 0 in
+  (r = -1 /\ forall i, ~ occurs_at s sub i) \/ (occurs_at s sub r /\ forall i, occurs_at s sub i -> r <= i).
+Proof. exact index_of_default. Qed.
+
+Theorem C19_last_index_of_default : forall s sub,
+  let r := last_index_of s sub 0 in
+  (r = -1 /\ forall i, ~ occurs_at s sub i) \/ (occurs_at s sub r /\ forall i, occurs_at s sub i -> i <= r).
+Proof. exact last_index_of_default. Qed.
+
+(* with start and length, -len <= start: the occurrence lies inside [S, min(len, S + L)) *)
+Theorem C19_index_of_window : forall s sub start length, - zlen s <= start ->
+  first_in_window s sub (io_start s start)
+    (Z.min (zlen s) (io_start s start + io_length s start length) - zlen sub) (index_of3 s sub start length).
+Proof. exact index_of3_spec. Qed.
+
+Theorem C19_last_index_of_window : forall s sub start length, - zlen s <= start ->
+  last_in_window s sub (io_start s start)
+    (Z.min (zlen s) (io_start s start + io_length s start length) - zlen sub) (last_index_of3 s sub start length).
+Proof. exact last_index_of3_spec. Qed.
+
+Theorem C19_in : forall sub s, str_in sub s = true <-> exists i, occurs_at s sub i.
+Proof. exact str_in_spec. Qed.
+
+(* ---- split / join --------------------------------------------------------------------- *)
+(* joining what split (or rightSplit) produced gives the string back, for every maxSplits;
+   an empty separator is the only error *)
+Theorem C19_split_join : forall s sep cnt,
+  (sep <> [] -> join sep (split_sep sep s cnt) = s /\ join sep (rsplit_sep sep s cnt) = s) /\
+  (forall l, str_split s (Some sep) cnt = inr l -> sep <> [] /\ join sep l = s) /\
+  (forall l, str_rsplit s (Some sep) cnt = inr l -> sep <> [] /\ join sep l = s) /\
+  str_split s (Some []) cnt = inl EValue.
+Proof.
+  exact (fun s sep cnt => conj (fun H => conj (split_join sep s cnt H) (rsplit_join sep s cnt H))
+          (conj (str_split_join s sep cnt) (conj (str_rsplit_join s sep cnt) (proj1 (str_split_empty_sep s cnt))))).
+Qed.
+
+(* splitting what join produced gives the parts back - for a one-character separator that
+   occurs in no part.  (DESIGN.md states it for every separator that no part contains; that
+   is refuted below, so this is the _partial form.) *)
+Theorem C19_join_split_partial : forall c parts cnt, parts <> [] -> cnt < 0 ->
+  Forall (fun p => ~ In c p) parts -> split_sep [c] (join [c] parts) cnt = parts.
+Proof. exact join_split_single. Qed.
+
+Theorem C19_join_split_refuted : exists sep parts,
+  parts <> [] /\ Forall (fun p => str_in sep p = false) parts /\ split_sep sep (join sep parts) (-1) <> parts.
+Proof.
+  exists [97; 97], [[97]; []]. split; [discriminate|]. split; [repeat constructor|]. vm_compute. discriminate.
+Qed.
+
+(* at most maxSplits separators are consumed *)
+Theorem C19_split_count : forall s sep cnt, 0 <= cnt ->
+  (length (split_sep sep s cnt) <= Z.to_nat cnt + 1)%nat.
+Proof. exact (fun s sep cnt => replace_fields_bound s sep cnt). Qed.
+
+(* ---- trim ------------------------------------------------------------------------------- *)
+(* s = p ++ trim s ++ q with p, q made of set characters only, maximal *)
+Theorem C19_trim : forall s chars, exists p q,
+  s = p ++ trim s chars ++ q /\ all_in (charset chars) p /\ all_in (charset chars) q /\
+  head_out (charset chars) (trim s chars) /\ last_out (charset chars) (trim s chars).
+Proof. exact (fun s chars => strip_spec (charset chars) s). Qed.
+
+Theorem C19_trim_left : forall s chars, exists p,
+  s = p ++ trim_left s chars /\ all_in (charset chars) p /\ head_out (charset chars) (trim_left s chars).
+Proof. exact (fun s chars => lstrip_spec (charset chars) s). Qed.
+
+Theorem C19_trim_right : forall s chars, exists q,
+  s = trim_right s chars ++ q /\ all_in (charset chars) q /\ last_out (charset chars) (trim_right s chars).
+Proof. exact (fun s chars => rstrip_spec (charset chars) s). Qed.
+
+Theorem C19_charset : forall cs c, charset (Some cs) c = true <-> In c cs.
+Proof. exact (fun cs c => memb_In c cs). Qed.
+
+(* ---- norm / isEmpty ------------------------------------------------------------------------ *)
+Theorem C19_norm_isempty : forall s chars,
+  (is_empty s true chars = true <-> norm s chars = None) /\
+  (forall t v, s = Some t -> (norm s chars = Some v <-> v = trim t chars /\ v <> [])) /\
+  (forall t, s = Some t -> (is_empty s false chars = true <-> t = [])).
+Proof.
+  exact (fun s chars => conj (norm_isempty s chars)
+          (conj (fun t v E => eq_ind_r (fun s0 => norm s0 chars = Some v <-> v = trim t chars /\ v <> []) (norm_some t chars v) E)
+                (fun t E => eq_ind_r (fun s0 => is_empty s0 false chars = true <-> t = []) (is_empty_notrim t chars) E))).
+Qed.
+
+(* ---- startsWith / endsWith -------------------------------------------------------------------- *)
+Theorem C19_starts_ends : forall s ps,
+  (starts_with s ps = true <-> exists p, In p ps /\ exists t, s = p ++ t) /\
+  (ends_with s ps = true <-> exists p, In p ps /\ exists t, s = t ++ p).
+Proof. exact (fun s ps => conj (starts_with_spec s ps) (ends_with_spec s ps)). Qed.
+
+(* ---- replace ------------------------------------------------------------------------------------ *)
+(* replace(old, new, count) is split on old (count splits at most) joined by new; count = 0 and
+   new = old change nothing *)
+Theorem C19_replace_count : forall s old new cnt,
+  (old <> [] -> str_replace s old new cnt = join new (split_sep old s cnt)) /\
+  str_replace s old new 0 = s /\
+  (old <> [] -> str_replace s old old cnt = s).
+Proof.
+  exact (fun s old new cnt => conj (replace_split_join s old new cnt) (conj (replace_zero s old new) (replace_same s old cnt))).
+Qed.
+
+(* a dictionary is applied sequentially, in item order *)
+Theorem C19_replace_dict : forall s k v rest cnt,
+  replace_dict s ((k, v) :: rest) cnt = replace_dict (str_replace s (str_of k) (str_of v) cnt) rest cnt /\
+  replace_dict s [] cnt = s.
+Proof. exact (fun s k v rest cnt => conj eq_refl eq_refl). Qed.
+
+(* ---- toCharArray, *, characters -------------------------------------------------------------------- *)
+Theorem C19_to_char_array : forall s,
+  concat (to_char_array s) = s /\ join [] (to_char_array s) = s /\ length (to_char_array s) = length s.
+Proof. exact to_char_array_spec. Qed.
+
+Theorem C19_mul : forall s n,
+  (n <= 0 -> str_mul s n = []) /\ (0 <= n -> zlen (str_mul s n) = n * zlen s) /\
+  str_mul s (n + 1) = (if n <? 0 then str_mul s (n + 1) else s ++ str_mul s n).
+Proof. exact str_mul_spec. Qed.
+
+(* characters(): exactly the members of the selected documented classes, as a set *)
+Theorem C19_characters : forall f,
+  (forall c, In c (characters f) <-> In c (characters_string f)) /\ StronglySorted Z.lt (characters f).
+Proof. exact characters_spec. Qed.
+
+(* ---- _publish_match ------------------------------------------------------------------------------------ *)
+(* after _publish_match m: $1 is the whole match, $(i+2) is group i+1, $name is the record of the
+   group of that name; nothing else is published *)
+Theorem C19_publish : forall m,
+  ctx_get (KNum 1) (publish m) = Some (m_whole m) /\
+  (forall i, (i < length (m_groups m))%nat -> ctx_get (KNum (i + 2)) (publish m) = Some (nth i (m_groups m) none_rec)) /\
+  (NoDup (map fst (m_named m)) -> forall nm idx, In (nm, idx) (m_named m) ->
+     ctx_get (KName nm) (publish m) = Some (group m idx)) /\
+  (forall n, (n = 0 \/ length (m_groups m) + 2 <= n)%nat -> ctx_get (KNum n) (publish m) = None) /\
+  (forall nm, ~ In nm (map fst (m_named m)) -> ctx_get (KName nm) (publish m) = None).
+Proof.
+  exact (fun m => conj (publish_whole m) (conj (publish_group m) (conj (fun H nm idx => publish_named m nm idx H)
+          (conj (publish_no_other_number m) (publish_no_other_name m))))).
+Qed.
+
+(* replaceBy/replace/split: no match, nothing changes; one match: prefix ++ replacement ++ suffix *)
+Theorem C19_replace_by_partial : forall s items repl cnt,
+  replace_by s [] items cnt = s /\ replace_lit s [] repl cnt = s /\ regex_split s [] cnt = [Some s].
+Proof. exact no_match_identity. Qed.
+
+Theorem C19_replace_by_one : forall s m f v st en, m_whole m = (v, st, en) ->
+  splice s 0 [m] f = firstn (Z.to_nat st) s ++ f m ++ skipn (Z.to_nat en) s.
+Proof. exact splice_one. Qed.
+
+(* ---- non-vacuity ------------------------------------------------------------------------------------------ *)
 Example C19_substring_ex :
   substring [97; 98; 99; 100] (-3) 2 = [98; 99] /\ substring [97; 98; 99; 100] 1 (-1) = [98; 99; 100].
 Proof. vm_compute. split; reflexivity. Qed.
 
+(* "cabcdab": indexOf("ab") = 1, indexOf("ab", 2) = 5, indexOf("ab", 6) = -1, lastIndexOf("ab") = 5,
+   indexOf("bc", 2, 2) = 2, "cabcdbc".lastIndexOf("bc", 2, 5) = 5 (the docstring examples) *)
+Example C19_index_ex :
+  let s := [99; 97; 98; 99; 100; 97; 98] in
+  index_of s [97; 98] 0 = 1 /\ index_of s [97; 98] 2 = 5 /\ index_of s [97; 98] 6 = -1 /\
+  last_index_of s [97; 98] 0 = 5 /\ index_of3 s [98; 99] 2 2 = 2 /\
+  last_index_of3 [99; 97; 98; 99; 100; 98; 99] [98; 99] 2 5 = 5 /\ occurs_at s [97; 98] 5.
+Proof.
+  vm_compute. repeat split.
+  exists [99; 97; 98; 99; 100], []. split; reflexivity.
+Qed.
+
+Example C19_split_ex :
+  split_sep [44] [97; 44; 44; 98; 44] (-1) = [[97]; []; [98]; []] /\
+  split_sep [97; 97] [97; 97; 97] (-1) = [[]; [97]] /\ rsplit_sep [97; 97] [97; 97; 97] (-1) = [[97]; []] /\
+  str_replace [97; 98; 97; 97; 98] [97; 98] [99; 100] (-1) = [99; 100; 97; 99; 100] /\
+  trim [32; 97; 32; 98; 32] None = [97; 32; 98] /\ norm (Some [97; 97]) (Some [97]) = None.
+Proof. vm_compute. repeat split. Qed.
+
+(* pattern (?P<x>a)(b)? on "ab": $1 = ab, $2 = $x = a, $3 = b *)
+Example C19_publish_ex :
+  let m := {| m_whole := (Some [97; 98], 0, 2); m_groups := [(Some [97], 0, 1); (Some [98], 1, 2)];
+              m_named := [([120], 1%nat)] |} in
+  select [KNum 1; KNum 2; KNum 3; KNum 4; KName [120]; KName [121]] m =
+  [Some (Some [97; 98], 0, 2); Some (Some [97], 0, 1); Some (Some [98], 1, 2); None; Some (Some [97], 0, 1); None]
+  /\ NoDup (map fst (m_named m)).
+Proof. vm_compute. split; [reflexivity|]. constructor; [intros []|constructor]. Qed.
+
 Print Assumptions C19_substring.
+Print Assumptions C19_index_of.
+Print Assumptions C19_index_of_window.
+Print Assumptions C19_last_index_of_window.
+Print Assumptions C19_split_join.
+Print Assumptions C19_join_split_partial.
+Print Assumptions C19_trim.
+Print Assumptions C19_norm_isempty.
+Print Assumptions C19_starts_ends.
+Print Assumptions C19_replace_count.
+Print Assumptions C19_characters.
+Print Assumptions C19_publish.
